@@ -35,11 +35,17 @@ func P1(idx int, a []byte) []byte {
 }
 
 // P2Patterns are the structured long payload patterns.
-var P2Patterns = []string{"zeros", "ff", "cycle2", "cycle256", "lcg", "far", "cycle251", "words"}
+var P2Patterns = []string{"zeros", "ff", "cycle2", "cycle256", "lcg", "far", "cycle251", "words", "rand+words", "words+rand"}
 
 // P2LongOnly: patterns whose period does not divide 32768 (so that a window that is stale by a multiple of 32 KiB
 // holds DIFFERENT bytes); only used for sizes >= 255.
-var P2LongOnly = map[string]bool{"cycle251": true, "words": true}
+var P2LongOnly = map[string]bool{"cycle251": true, "words": true, "rand+words": true, "words+rand": true}
+
+// P2MixedSizes are extra sizes for the two mixed patterns only ("rand+words": 4/5 incompressible then word
+// salad; "words+rand": 1/5 word salad then incompressible): encoders switch chunk / block kinds inside one
+// stream there (LZMA2 uncompressed chunk with dictionary reset followed by an LZMA chunk, deflate stored
+// block followed by a Huffman block, ...) -- seeded change C07-5.
+var P2MixedSizes = []int{80000, 125000, 200000}
 
 var wordList = []string{"the", "quick", "brown", "fox", "jumps", "over", "lazy", "dog", "wuffs", "deflate", "window", "history", "ring", "buffer", "a", "of", "and", "stream", "decoder", "suspend"}
 
@@ -91,6 +97,14 @@ func P2(pattern string, n int) []byte {
 				i++
 			}
 		}
+	case "rand+words", "words+rand":
+		k := n - n/5
+		a, c := "lcg", "words"
+		if pattern == "words+rand" {
+			k, a, c = n/5, "words", "lcg"
+		}
+		copy(b, P2(a, k))
+		copy(b[k:], P2(c, n-k))
 	case "lcg":
 		x := uint32(12345)
 		for i := range b {
@@ -148,6 +162,14 @@ func P2Payloads(maxSize int) []Payload {
 			if (n == 0 && p != "zeros") || (P2LongOnly[p] && n < 255) {
 				continue
 			}
+			out = append(out, Payload{Desc: fmt.Sprintf("P2:%s:%d", p, n), Class: "P2:" + p, Data: P2(p, n)})
+		}
+	}
+	for _, n := range P2MixedSizes {
+		if n > maxSize {
+			continue
+		}
+		for _, p := range []string{"rand+words", "words+rand"} {
 			out = append(out, Payload{Desc: fmt.Sprintf("P2:%s:%d", p, n), Class: "P2:" + p, Data: P2(p, n)})
 		}
 	}
